@@ -806,12 +806,16 @@ fn input_path_to_segments(path: &InputPath) -> Result<Vec<String>, String> {
     path.0
         .split('/')
         .filter(|segment| !segment.is_empty())
-        .map(|segment| match segment {
-            "." | ".." => Err("dot-segments are not permitted".to_string()),
-            _ => Ok(percent_decode_str(segment)
+        .map(|segment| {
+            // Check for dot-segments only after percent-decoding so that
+            // encoded spellings (e.g., "%2e%2e") are rejected, too.
+            let decoded = percent_decode_str(segment)
                 .decode_utf8()
-                .map_err(|e| e.to_string())?
-                .to_string()),
+                .map_err(|e| e.to_string())?;
+            match decoded.as_ref() {
+                "." | ".." => Err("dot-segments are not permitted".to_string()),
+                _ => Ok(decoded.to_string()),
+            }
         })
         .collect()
 }
